@@ -82,6 +82,9 @@ UNTYPED = [
     ("Where", "lambda e: e.jets.Count() > 1"),
     ("SelectMany", "lambda e: e.jets"),
     ("SelectMany", "lambda e: e.jets.Select(lambda j: j.pt)"),
+    # a user function that happens to be called like a query operator, inside a lambda
+    ("Select", "lambda e: MetaData(e.jets, e.info)"),
+    ("Select", "lambda e: e.jets.Select(lambda j: Select(j.tracks, j.n))"),
 ]
 TYPED = [
     ("Select", "lambda e: e.jets()"),
@@ -134,6 +137,7 @@ FAULT_KINDS = [
     "exec_error", "stall_cancel", "cancel", "timeout", "sync_in_loop", "derive_fail",
     "shared_ast", "typed", "unbind", "nontransportable", "touch", "override", "dup_exec",
     "threads", "capture_fault", "small_stack", "caller_interrupt", "caller_edit",
+    "backend_helpers",
 ]
 
 SAMPLES = [
@@ -428,6 +432,11 @@ def generate(prop: str, seed: int, tier: str = "quick", fault_free: bool = False
     spawned = []
     qhist = {}
     for _ in range(n_ops):
+        if ops and "backend_helpers" in faults and ops[-1]["op"] in ("spawn", "exec_sync") \
+                and "backend" not in ops[-1]:
+            # the executor behaves like a real back end: it runs the library's own helpers
+            # (documented not to modify what they are given) on the query it received
+            ops[-1]["backend"] = f.random() < 0.3
         if ops and "caller_edit" in faults and ops[-1]["op"] in ("md", "qmd", "term") \
                 and "edit_after" not in ops[-1]:
             # the caller keeps the dict / list it passed and changes it afterwards
@@ -450,8 +459,11 @@ def generate(prop: str, seed: int, tier: str = "quick", fault_free: bool = False
                 md = {}
             elif r < 0.8:
                 md = {w.choice(["x", "y"]): w.randint(0, 3)}
-            else:  # the very blocks the typed models' callbacks add
+            elif r < 0.93:  # the very blocks the typed models' callbacks add
                 md = w.choice([{"m": "evt"}, {"m": "jet_eta"}, {"f": "fsq"}])
+            else:  # values whose text is not a literal (str(inf) is a name)
+                md = w.choice([{"scale": float("inf")}, {"w": float("-inf"), "x": 1},
+                               {"tags": ["a", 1e400]}])
             ops.append({"op": "md", "parent": w.randrange(64), "md": md})
             if w.random() < 0.3:  # stacked wrappers on the stream just made, often identical
                 md2 = dict(md) if w.random() < 0.5 else {w.choice(["x", "y"]): w.randint(0, 3)}
@@ -812,6 +824,14 @@ class Forest:
             return None
         call["starts"].append(rec)
         plan = call["plan"]
+        if call.get("backend"):
+            from func_adl.ast.meta_data import extract_metadata, remove_empty_metadata
+
+            self.stat("fault_executor_runs_library_helpers")
+            try:
+                extract_metadata(remove_empty_metadata(a))
+            except Exception:  # a block that cannot be evaluated: the back end's problem
+                self.stat("backend_helper_raised")
         if call.get("interrupt") and not call.get("interrupt_sent"):
             # fault: the thread that is blocked in value() right now is interrupted (what SIGINT
             # does to a waiting main thread); this executor stays busy until the simulator lets
@@ -1559,6 +1579,10 @@ class Forest:
             call["done_t"] = self.world.now
         self.ev("call_done", call["no"], call["res"][0])
 
+    def arm_backend(self, op, call):
+        if op.get("backend"):
+            call["backend"] = True
+
     def arm_interrupt(self, op, call):
         if op.get("interrupt") and self.world.mt is None:
             call["interrupt"] = True
@@ -1607,6 +1631,7 @@ class Forest:
         self.last_op = "execute"
         call = self.new_call(m, op["plan"], op["override"], "sync", None, titled=op["titled"])
         self.arm_interrupt(op, call)
+        self.arm_backend(op, call)
         n0 = self.exec_starts
         if op.get("stack"):
             # resource fault: the library runs with few frames left; a deep recursion overflows
@@ -1644,6 +1669,7 @@ class Forest:
             self.stat("calls_with_repeated_title")
         if op["via"] == "sync":
             self.arm_interrupt(op, call)
+        self.arm_backend(op, call)
         t = loop.create_task(self.one(call), name=f"call-{call['no']}")
         call["task"] = t
         call["op_id"] = self.cur_id
